@@ -747,6 +747,10 @@ def eq_all(a, b):
 # --------------------------------------------------------------------------
 # symbolic-length sequences and arrays (pull representation)
 
+class _Own:
+    """token naming one allocation of element objects (ownership ghost of SSeq)"""
+
+
 class SSeq:
     """sequence with symbolic (or concrete) length: len term + element function.
     Elements may be any python / symbolic value (scalars, CArr matrices, tuples).
@@ -754,11 +758,14 @@ class SSeq:
     self._get/_len so python aliasing of list objects is kept)."""
     _pyvc_seq = True
 
-    def __init__(self, length, get, elem_kind=None, name=None):
+    def __init__(self, length, get, elem_kind=None, name=None, owners=None):
         self._len = length
         self._get = get
         self.elem_kind = elem_kind
         self.name = name
+        # ownership ghost: the allocation(s) the element *objects* belong to.  A slice / list() / identity
+        # comprehension of a list holds the same element objects; deepcopy and computed elements are new ones.
+        self.owners = owners if owners is not None else frozenset([_Own()])
 
     def __deepcopy__(self, memo):
         return SSeq(self._len, self._get, self.elem_kind, self.name)
@@ -933,7 +940,7 @@ def slice_seq(seq, sl):
     n = seq.length()
     start, stop = slice_bounds(sl, n)
     ln = span(start, stop)
-    return SSeq(ln, lambda k: seq.get(k + start), seq.elem_kind)
+    return SSeq(ln, lambda k: seq.get(k + start), seq.elem_kind, owners=seq.owners)
 
 
 def seq_len(x):
@@ -1394,7 +1401,7 @@ def subst_val(v, k, q):
     if isinstance(v, SSeq):
         g = v._get
         r = SSeq(subst_val(v._len, k, q) if is_sym(v._len) else v._len,
-                 lambda j, g=g: subst_val(g(j), k, q), v.elem_kind, v.name)
+                 lambda j, g=g: subst_val(g(j), k, q), v.elem_kind, v.name, owners=v.owners)
         return r
     if isinstance(v, SArr):
         g = v._cell[0]
